@@ -279,6 +279,9 @@ def run(ck):
     ck.stream("exhaustive", ex, "C12_run", "C12", "C12_ok", nontrivial=nontrivial, sig=sig, project=project,
               timeout=2400, sample=1)
 
+    # 4. WSP: the same property on wrapped requests (defined at the end of this file)
+    wsp_streams(ck)
+
     return ck.finish(
         rule="(a) random request sequences of length 1..12 (thorough 1..16) biased along the DESCRIBE/SETUP/PLAY and ANNOUNCE/SETUP/RECORD "
              "flows with deviations at every position (all methods of the alphabet incl. PAUSE/GET_PARAMETER/unknown, valid and "
@@ -292,3 +295,192 @@ def run(ck):
         assumptions=["authentication off (config default)", "ASCII Transport headers without leading/trailing blanks",
                      "requests are syntactically well-formed RTSP (malformed framing is outside this property)",
                      "net.ListenUDP succeeds when a UDP PLAY starts"])
+
+
+# ---------------------------------------------------------------------------------------------
+# WSP (service/wsp): RTSP requests wrapped in WSP messages on a websocket control channel,
+# media on a joined data channel.  Model: coq/Model/C12Wsp.v, oracle c12w_ok
+# (theorem C12_wsp_model_passes), harness package harness/c12wsp (command C12_wsp).
+W_INIT, W_GETINFO, W_SWITCH, W_WRAP, W_CTLJOIN, W_JOIN, W_JOINX = range(7)
+W_WATCH = [LIVE_A, LIVE_B, LIVE_N, "/"]
+
+
+def wmsg(cmd, seq):
+    return [cmd, str(seq), 0, "", "", ""]
+
+
+def wwrap(seq, meth, cseq, path, ctl=None, transport=""):
+    u, _ = url_of(path, ctl)
+    return [W_WRAP, str(seq), meth, str(cseq), u, transport]
+
+
+class WGen:
+    """WSP sessions: INIT, a data channel JOIN somewhere, the DESCRIBE/SETUP/PLAY/PAUSE flow with
+    deviations at every position, protocol violations now and then"""
+    def __init__(self, rng):
+        self.rng = rng
+        self.g = Gen(rng)
+
+    def env(self):
+        r = self.rng
+        e = []
+        if r.random() < 0.9:
+            e.append([LIVE_A, r.choice([1, 1, 1, 1, 2, 5, 8, 3, 6, 7, 4, 0]), False])
+        if r.random() < 0.3:
+            e.append([LIVE_N, r.choice([1, 2, 8, 7, 4]), False])
+        if r.random() < 0.2:
+            e.append([LIVE_B, r.choice([1, 3, 5, 2]), False])
+        return e
+
+    def seq(self, i):
+        r = self.rng
+        k = r.random()
+        if k < 0.85:
+            return str(i + 1)
+        if k < 0.9:
+            return ""
+        return r.choice(["0", "7", "abc", "4294967296", "1 2", "-3", "s-1"])
+
+    def setup(self, i, path, sdp, p_ok):
+        r = self.rng
+        g = self.g
+        ok = lambda: r.random() < p_ok
+        if ok():
+            t = r.choice([T_TCP, T_TCP, T_TCP2, "RTP/AVP/TCP;unicast;interleaved=0-1;mode=play"])
+        else:
+            t = r.choice([T_UDP, T_MC, T_TCP_REC, T_UDP_REC, "RTP/AVP/TCP;unicast"] + GOOD_T + BAD_T)
+        return wwrap(self.seq(i), SETUP, g.cseq(i), path if ok() else g.path(True),
+                     ctl=g.good_ctl(sdp) if ok() else r.choice(CTLS), transport=t)
+
+    def case(self, maxlen):
+        r = self.rng
+        g = self.g
+        env = self.env()
+        if env and r.random() < 0.85:
+            wspath, sdp, _ = r.choice(env)
+        else:
+            wspath, sdp = r.choice([LIVE_A, LIVE_N, "/live/none", "/LIVE/A"]), 1
+        upath = wspath.lower()
+        n = r.randint(1, maxlen)
+        p_ok = r.choice([1.0, 0.9, 0.9, 0.7])
+        flow = [DESCRIBE, SETUP, SETUP, PLAY, PAUSE, PLAY, PAUSE, PLAY]
+        if r.random() < 0.5:
+            del flow[2]
+        cut = r.choice([4, 5, 6, 8, 8])
+        flow = flow[:cut]
+        style = r.random()
+        join_at = r.choice([1, 1, 1, 2, 3, 4, 5, 6, -1])      # position of the data channel JOIN
+        reqs = []
+        k0 = r.random()
+        if k0 < 0.08:
+            reqs.append(wmsg(W_GETINFO, self.seq(0)))
+        if k0 < 0.93:
+            reqs.append(wmsg(W_INIT, self.seq(len(reqs))))
+        fi = 0
+        while len(reqs) < n + 1:
+            i = len(reqs)
+            k = r.random()
+            if i == join_at or k < 0.04:
+                reqs.append(wmsg(W_JOIN if r.random() < 0.85 else W_JOINX, self.seq(i)))
+                continue
+            if k < 0.07:
+                reqs.append(wmsg(r.choice([W_INIT, W_GETINFO, W_CTLJOIN, W_SWITCH, W_SWITCH, W_SWITCH]), self.seq(i)))
+                continue
+            if style < 0.8 and k < 0.8 and fi < len(flow):
+                m = flow[fi]
+                fi += 1
+            elif k < 0.96:
+                m = r.choice([OPTIONS, DESCRIBE, SETUP, SETUP, PLAY, PLAY, PAUSE, PAUSE, PAUSE, RECORD, ANNOUNCE,
+                              GET_PARAMETER, FOOBAR, SET_PARAMETER])
+            else:
+                m = TEARDOWN
+            if m == SETUP:
+                reqs.append(self.setup(i, upath, sdp, p_ok))
+            else:
+                reqs.append(wwrap(self.seq(i), m, g.cseq(i), upath if r.random() < p_ok else g.path(True)))
+        return [wspath, env, W_WATCH, reqs]
+
+
+def wsp_exhaustive(depth, prefix_ready):
+    """every sequence of length <= depth over a reduced alphabet, after INIT (+ JOIN, DESCRIBE, SETUP)"""
+    alpha = [
+        wwrap(1, OPTIONS, 1, LIVE_A),
+        wwrap(1, DESCRIBE, 1, LIVE_A),
+        wwrap(1, SETUP, 1, LIVE_A, ctl="streamid=0", transport=T_TCP),
+        wwrap(1, SETUP, 1, LIVE_A, ctl="streamid=1", transport=T_UDP),
+        wwrap(1, PLAY, 1, LIVE_A),
+        wwrap(1, PAUSE, 1, LIVE_A),
+        wwrap(1, GET_PARAMETER, 1, LIVE_A),
+        wwrap(1, TEARDOWN, 1, LIVE_A),
+        wmsg(W_JOIN, 1),
+    ]
+    prefix = [wmsg(W_INIT, 1)]
+    if prefix_ready:
+        prefix += [wmsg(W_JOIN, 1), alpha[1], alpha[2]]
+        alpha = [a for a in alpha if a[0] == W_WRAP and a[2] != GET_PARAMETER]
+    out = []
+    for L in range(1, depth + 1):
+        for t in itertools.product(range(len(alpha)), repeat=L):
+            # nothing is answered after TEARDOWN: keep only sequences where it comes last
+            if any(alpha[i][0] == W_WRAP and alpha[i][2] == TEARDOWN for i in t[:-1]):
+                continue
+            reqs = []
+            for n, a in enumerate(prefix + [alpha[i] for i in t]):
+                q = list(a)
+                q[1] = str(n + 1)
+                if q[0] == W_WRAP:
+                    q[3] = str(n + 1)
+                reqs.append(q)
+            out.append([LIVE_A, [[LIVE_A, 1, False]], [LIVE_A], reqs])
+    return out
+
+
+def wsp_nontrivial(c):
+    ms = [q[2] for q in c[3] if q[0] == W_WRAP]
+    return len(c[3]) >= 4 and SETUP in ms and PLAY in ms
+
+
+def wsp_sig(c, e, o):
+    try:
+        obs = vparse(o)
+        if obs and isinstance(obs[0], bytes):
+            return "wsp-harness-" + obs[0].decode()
+        est = False
+        for q, st in zip(c[3], obs[0]):
+            resps = st[0]
+            if q[0] == W_WRAP and est and not st[1] and len(resps) != 1:
+                name = {OPTIONS: "OPTIONS", DESCRIBE: "DESCRIBE", SETUP: "SETUP", PLAY: "PLAY", PAUSE: "PAUSE",
+                        TEARDOWN: "TEARDOWN"}.get(q[2], "OTHER")
+                return "wsp-%s-got-%d-responses" % (name, len(resps))
+            if q[0] == W_INIT and len(resps) == 1 and resps[0][0] == 200:
+                est = True
+    except Exception:
+        pass
+    return "wsp-session-automaton"
+
+
+def wsp_streams(ck):
+    g = WGen(ck.rng)
+    n = 6000 if ck.thorough else 300
+    cases = [g.case(16 if ck.thorough else 12) for _ in range(n)]
+    ex = wsp_exhaustive(4 if ck.thorough else 3, False) + wsp_exhaustive(4 if ck.thorough else 3, True)
+    obs = ck.stream("wsp-sessions", cases + ex, "C12_wsp_run", "C12_wsp", "C12_wsp_ok", nontrivial=wsp_nontrivial,
+                    sig=wsp_sig, timeout=2400)
+    playing = media = paused = 0
+    for c, o in zip(cases + ex, obs):
+        try:
+            v = vparse(o)
+            steps = v[0]
+            if not isinstance(steps, list):
+                continue
+            playing += any(any(r[1] > 0 for r in st[2]) for st in steps)
+            media += any(st[3] for st in steps)
+            # a step in which the session consumes, a data channel is joined, and nothing arrives: paused
+            paused += any(any(r[1] > 0 for r in st[2]) and not st[3] for st in steps) and any(st[3] for st in steps)
+        except Exception:
+            pass
+    ck.extra.update({"wsp_sessions_playing": playing, "wsp_sessions_with_media": media,
+                     "wsp_sessions_media_and_silence": paused})
+    if obs and (playing < 10 or media < 10 or paused < 5):
+        ck.broken.append(Broken("C12 WSP observations are vacuous (playing=%d media=%d paused=%d): the harness no "
+                                "longer exercises PLAY/PAUSE or no longer sees media" % (playing, media, paused)))
